@@ -4,7 +4,7 @@ Writes <dir>/<id>/detection.json. NEVER leaves /repo modified (git checkout -- .
 import json, os, subprocess, sys, glob, time
 root = sys.argv[1]
 only = sys.argv[2:]
-EXTRA = {"C01": ["C03", "C08", "C17"], "C02": ["C03", "C07", "C05", "C10"], "C03": ["C05", "C10", "C09", "C01"], "C04": ["C03", "C01", "C17"], "C05": ["C10", "C09", "C02"], "C06": ["C04", "C17"], "C07": ["C14", "C02", "C03"], "C08": ["C17", "C03"], "C09": ["C03", "C17", "C08"], "C10": ["C05", "C15", "C11"], "C11": ["C10", "C13"], "C12": ["C10", "C09", "C16"], "C13": ["C17", "C03", "C09", "C04"], "C14": ["C02", "C12", "C03"], "C15": ["C04"], "C16": ["C12"], "C17": ["C02", "C03", "C08"], "C18": ["C03", "C11"], "C20": ["C08", "C17"]}
+EXTRA = {"C01": ["C03", "C08", "C17"], "C02": ["C17", "C08", "C03", "C07", "C05", "C10"], "C03": ["C05", "C10", "C09", "C01"], "C04": ["C03", "C01", "C17"], "C05": ["C10", "C09", "C02"], "C06": ["C04", "C17"], "C07": ["C14", "C02", "C03"], "C08": ["C17", "C03"], "C09": ["C03", "C17", "C08"], "C10": ["C05", "C15", "C11"], "C11": ["C10", "C13"], "C12": ["C10", "C09", "C16"], "C13": ["C17", "C03", "C09", "C04"], "C14": ["C02", "C12", "C03"], "C15": ["C04"], "C16": ["C12"], "C17": ["C02", "C03", "C08"], "C18": ["C03", "C11"], "C20": ["C08", "C17"]}
 def sh(cmd, **kw):
     return subprocess.run(cmd, shell=True, stdout=subprocess.PIPE, stderr=subprocess.STDOUT, text=True, **kw)
 assert sh("git -C /repo status --porcelain --untracked-files=no").stdout.strip() == "", "/repo is not clean"
